@@ -1,8 +1,12 @@
 package main
 
 import (
+	"bytes"
 	"fmt"
+	goat "github.com/philhassey/goatlang"
 	"math/rand"
+	"strings"
+	"testing/fstest"
 )
 
 // C09 — calls deliver arguments and results in order and with their declared types.
@@ -23,7 +27,7 @@ func init() {
 	extraCorpus = append(extraCorpus, func(c *Ctx, r *rand.Rand) []map[string]string {
 		var out []map[string]string
 		progs := c09Programs(1, 12)
-		progs = append(progs, c09TypedDecls())
+		progs = append(progs, c09TypedDecls(), c09VariadicTypes())
 		for _, p := range progs {
 			out = append(out, map[string]string{"main/main.go": p.Source(false, nil)})
 		}
@@ -392,7 +396,7 @@ func c09ErrorPrograms() []*Prog {
 }
 
 func checkC09(c *Ctx) {
-	c.Rule = "signatures = every list of 0..P parameters (P=2 quick, 3 thorough) over {int, uint8, string, bool, []int, *T, func(int) int}, with and without a variadic tail, with 0..3 results; each exercised through direct call (0/1/3 surplus variadic arguments, spread), statement call, return f() wrapper, call as argument, method call, method value (receiver bound at capture), function-typed variable and parameter; constants and nil as arguments; linear recursion to depth D and tree recursion; plus error cases (wrong arity, too many results requested); distinct_nontrivial = (signature, call form) pairs"
+	c.Rule = "signatures = every list of 0..P parameters (P=2 quick, 3 thorough) over {int, uint8, string, bool, []int, *T, func(int) int}, with and without a variadic tail, with 0..3 results; each exercised through direct call (0/1/3 surplus variadic arguments, spread), statement call, return f() wrapper, call as argument, method call, method value (receiver bound at capture), function-typed variable and parameter; constants and nil as arguments; linear recursion to depth D and tree recursion; plus error cases (wrong arity, too many results requested); plus every pair of parameter lists (0..3 fixed, with and without a variadic tail) for a function defined again on the same VM; distinct_nontrivial = (signature, call form) pairs"
 	c.Assumptions = []string{"MiniGo.tla is calibrated against the Go toolchain on every valid program of this check", "the error cases are not Go programs: their expected outcome (an error after the output so far) is the property's own statement"}
 	maxP := c.pick(2, 3)
 	c09Forms = 0
@@ -401,7 +405,7 @@ func checkC09(c *Ctx) {
 	nsig := len(c09Signatures(maxP))
 	c.Extra["signatures"] = nsig
 	progs = append(progs, c09Recursion(c.pick(300, 1500)))
-	progs = append(progs, c09TypedDecls())
+	progs = append(progs, c09TypedDecls(), c09VariadicTypes())
 	// seeded random call-heavy programs: function literals, method values, return f(), variadics
 	r := rand.New(rand.NewSource(c.Seed))
 	for i := 0; i < c.pick(300, 5000); i++ {
@@ -425,6 +429,7 @@ func checkC09(c *Ctx) {
 	calibrateGo(c, &mgBatch{Progs: progs[:valid], Sources: b.Sources, Behs: b.Behs}, "c09")
 	compareBehaviours(c, b, true, "call")
 	compareBehaviours(c, b, false, "call")
+	c09Redefinitions(c)
 	c.DistinctCount = int64(forms)
 	c.Extra["call_forms_exercised"] = forms
 	p := progs[len(progs)/3]
@@ -475,4 +480,145 @@ func c09TypedDecls() *Prog {
 	}
 	p.Funcs = append(p.Funcs, &Func{Name: "Main", Body: body})
 	return p
+}
+
+// c09VariadicTypes: variadic parameters whose element type is not int (uint8, int8, string): surplus
+// untyped constants must arrive as values of the element type (200 + 100 wraps in a uint8), through a
+// direct call, a method, a function value and a spread of a typed slice.
+func c09VariadicTypes() *Prog {
+	p := &Prog{ID: "c09/variadic-types", Pkg: "main", Main: "Main"}
+	p.Structs = []*StructDef{{Name: "T", Fields: []string{"X"}, FTypes: []*Ty{TInt}}}
+	mk := func(name string, et *Ty, recv bool) *Func {
+		vt := SliceOf(et)
+		fn := &Func{Name: name, Params: []string{"k", "va"}, PTypes: []*Ty{TInt, vt}, Variadic: true, Results: []*Ty{TInt}}
+		if recv {
+			fn.Recv, fn.RecvTy = "t", "T"
+		}
+		var body []*S
+		body = append(body, dcl("acc", lit(TInt, 0)))
+		if et.K == "string" {
+			body = append(body, &S{K: "range", X: v("va", vt), KName: "_", VName: "e", Body: []*S{{K: "opassign", Lhs: []*E{v("acc", TInt)}, Op: "+", E: lenOf(bin("+", TString, v("e", TString), sS("!")))}}})
+		} else {
+			// e + 100 is computed in the element type: it wraps there
+			body = append(body, &S{K: "range", X: v("va", vt), KName: "_", VName: "e", Body: []*S{{K: "opassign", Lhs: []*E{v("acc", TInt)}, Op: "+", E: &E{K: "conv", Ty: TInt, X: bin("+", et, v("e", et), lit(et, 100))}}}})
+		}
+		body = append(body, pr(sS(name), v("k", TInt), lenOf(v("va", vt)), v("acc", TInt)), ret(v("acc", TInt)))
+		fn.Body = body
+		return fn
+	}
+	fU, fI, fS, mU := mk("vu", TUint8, false), mk("vi", TInt8, false), mk("vs", TString, false), mk("T.mu", TUint8, true)
+	p.Funcs = append(p.Funcs, fU, fI, fS, mU)
+	call := func(fn string, args ...*E) *E { return &E{K: "call", Fn: fn, Ty: TInt, NRes: 1, Args: args} }
+	u := func(x int64) *E { return lit(TUint8, x) }
+	i8 := func(x int64) *E { return lit(TInt8, x) }
+	tv := v("t", PtrTo("T"))
+	ftU := FuncTy(&FuncSig{Params: []*Ty{TInt, SliceOf(TUint8)}, Results: []*Ty{TInt}, Variadic: true})
+	body := []*S{
+		pr(sS("direct"), call("vu", lit(TInt, 0)), call("vu", lit(TInt, 1), u(200)), call("vu", lit(TInt, 3), u(200), u(100), u(255))),
+		pr(sS("int8"), call("vi", lit(TInt, 2), i8(100), i8(-100)), call("vs", lit(TInt, 2), sS("a"), sS("bc"))),
+		dcl("t", newS("T", "X", lit(TInt, 1))),
+		pr(sS("method"), &E{K: "mcall", X: tv, M: "mu", Ty: TInt, NRes: 1, Args: []*E{lit(TInt, 2), u(200), u(56)}}, &E{K: "mcall", X: tv, M: "mu", Ty: TInt, NRes: 1, Args: []*E{lit(TInt, 0)}}),
+		dcl("h", &E{K: "fnval", Ty: ftU, Fn: "vu"}),
+		pr(sS("value"), &E{K: "callv", X: v("h", ftU), Ty: TInt, NRes: 1, Args: []*E{lit(TInt, 1), u(199)}}),
+		dcl("bs", &E{K: "slicelit", Ty: SliceOf(TUint8), Args: []*E{u(250), u(6)}}),
+		pr(sS("spread"), &E{K: "call", Fn: "vu", Ty: TInt, NRes: 1, Spread: true, Args: []*E{lit(TInt, 9), v("bs", SliceOf(TUint8))}}),
+	}
+	p.Funcs = append(p.Funcs, &Func{Name: "Main", Body: body})
+	return p
+}
+
+// c09Redefinitions: a function defined again on the same VM with a different parameter list (as a
+// second Eval or a reload does) must from then on be called with its NEW list: every pair of
+// signatures over 0..3 fixed parameters with and without a variadic tail, called through script code,
+// through a function value taken after the redefinition, and from the host.
+func c09Redefinitions(c *Ctx) {
+	type sig struct {
+		n        int
+		variadic bool
+	}
+	var sigs []sig
+	for n := 0; n <= 3; n++ {
+		sigs = append(sigs, sig{n, false}, sig{n, true})
+	}
+	decl := func(s sig, ver int) string {
+		var ps, sum []string
+		for i := 0; i < s.n; i++ {
+			ps = append(ps, fmt.Sprintf("p%d int", i))
+			sum = append(sum, fmt.Sprintf("p%d", i))
+		}
+		body := fmt.Sprintf("%d", ver*1000)
+		if s.variadic {
+			ps = append(ps, "va ...int")
+			body += " + 100*len(va)"
+		}
+		for _, x := range sum {
+			body += " + " + x
+		}
+		return "func f(" + strings.Join(ps, ", ") + ") int {\n\treturn " + body + "\n}\n"
+	}
+	args := func(s sig) (string, []goat.Value, int) {
+		var as []string
+		var vs []goat.Value
+		total := 0
+		for i := 0; i < s.n; i++ {
+			as = append(as, fmt.Sprint(i+1))
+			vs = append(vs, goat.Int(i+1))
+			total += i + 1
+		}
+		if s.variadic {
+			as = append(as, "7", "8")
+			vs = append(vs, goat.Int(7), goat.Int(8))
+			total += 200
+		}
+		return strings.Join(as, ", "), vs, total
+	}
+	for _, s1 := range sigs {
+		for _, s2 := range sigs {
+			if s1 == s2 {
+				continue
+			}
+			vm := goat.New(goat.WithStdout(&bytes.Buffer{}))
+			a1, _, t1 := args(s1)
+			a2, v2, t2 := args(s2)
+			steps := []struct {
+				src  string
+				want int
+			}{
+				{decl(s1, 1) + "r := f(" + a1 + ")\nr", 1000 + t1},
+				{decl(s2, 2) + "r = f(" + a2 + ")\nr", 2000 + t2},
+				{"g := f\nr = g(" + a2 + ")\nr", 2000 + t2},
+			}
+			key := fmt.Sprintf("redef|%v|%v", s1, s2)
+			bad := ""
+			for si, st := range steps {
+				goat.VerifSetBudget(100000)
+				rets, err := vm.Eval(fstest.MapFS{}, "redef.go", st.src)
+				goat.VerifSetBudget(-1)
+				c.Evaluations++
+				if err != nil {
+					bad = fmt.Sprintf("step %d: %s", si+1, firstLine(err.Error()))
+					break
+				}
+				if len(rets) != 1 || rets[0].Int() != st.want {
+					bad = fmt.Sprintf("step %d returned %v, want %d", si+1, valsToDescs(rets), st.want)
+					break
+				}
+			}
+			if bad == "" {
+				rets, err := vm.Call("main.f", 1, v2...)
+				c.Evaluations++
+				if err != nil {
+					bad = "host Call after the redefinition: " + firstLine(err.Error())
+				} else if rets[0].Int() != 2000+t2 {
+					bad = fmt.Sprintf("host Call after the redefinition returned %d, want %d", rets[0].Int(), 2000+t2)
+				}
+			}
+			if bad != "" {
+				c.violate(hashKey(key), fmt.Sprintf("function defined with %d parameters (variadic=%v), then again with %d (variadic=%v): %s", s1.n, s1.variadic, s2.n, s2.variadic, bad),
+					map[string]any{"first": decl(s1, 1), "second": decl(s2, 2), "call_after": "f(" + a2 + ")"})
+			} else {
+				c.TracesVsImpl++
+			}
+		}
+	}
 }
